@@ -375,7 +375,9 @@ def setOneV (pd : PDictV F) (st : SetSt F) (name : PName) : SetSt F :=
     | none => st
     | some cur =>
       match pd.lookup name with
-      | none => st
+      -- `pdict.get(pname, current_value) != current_value`: false for an absent name — unless the current
+      -- value is NaN (`nan != nan`), then the value is re-assigned and an update is reported
+      | none => if cur != cur then { st with cell := st.cell.setAttr name cur, updated := true } else st
       | some (.num v) => if v != cur then { st with cell := st.cell.setAttr name v, updated := true } else st
       | some .arr => { st with err := some .valueError }
       | some .bad => { st with err := some .typeError }
